@@ -40,7 +40,7 @@ type Ctx struct {
 func NewCtx(id, tier, level string) *Ctx {
 	c := &Ctx{ID: id, Tier: tier, Level: level, Start: time.Now(), Coverage: map[string]any{}, reported: map[string]bool{}}
 	c.Seed, _ = strconv.ParseInt(os.Getenv("VERIF_SEED"), 10, 64)
-	def := 420
+	def := 600
 	if tier == "thorough" {
 		def = 1500
 	}
